@@ -1864,7 +1864,9 @@ impl<'a> Run<'a> {
             let units: Vec<u16> = n.name.encode_utf16().collect();
             let Some(r) = rt.iter().find(|r| r.name == units) else { continue };
             let p = if path == "/" { format!("/{}", n.name) } else { format!("{}/{}", path, n.name) };
-            if n.times_known {
+            // deferred write-back: the entry of a file with a live handle lags behind until flush / drop
+            let lagging = !self.cfg.flush_each && !n.is_dir() && self.node_has_handle(*c);
+            if n.times_known && !lagging {
                 if r.created != n.created {
                     return Err(self.viol(Aspect::Times, format!("{}: created on disk {:?}, model {:?}", p, r.created, n.created)));
                 }
